@@ -13,7 +13,7 @@ from . import lib
 BUGS = ["nocritical", "flagfirst", "nolock", "noreduce", "noiolock", "sharedacc"]
 ACTIONS = ["ReadFlag", "EnterCritical", "RecheckFlag", "Fill1", "Fill2", "SetFlag", "LeaveCritical", "UseTable", "Take", "Seek", "ReadIO",
            "LockLookup", "Find", "Compute", "LockInsert", "Count", "Insert", "Accumulate", "Reduce"]
-WORKLOADS = ["lazy", "rows", "proj", "ll", "lm", "scat"]
+WORKLOADS = ["lazy", "rows", "proj", "ll", "lm", "scat", "io"]
 
 
 def counts_of(r):
